@@ -54,7 +54,7 @@ struct Totals {
     uint64_t maxReaders = 0, batches2 = 0, windowHits = 0, idleAsleepHits = 0, runsWithHit = 0;
     uint64_t pairsWW = 0, pairsWR = 0, pairsRW = 0, pairsLive = 0, maxQueue = 0;
     uint64_t idleProbes = 0, readerParksJudged = 0, readersNoWriter = 0, rendezvous = 0, rendezvousReaders = 0;
-    uint64_t predictedParks = 0, predictedFast = 0;
+    uint64_t predictedParks = 0, predictedFast = 0, lateArrivalPatterns = 0, lateArrivals = 0;
     std::vector<uint64_t> fps;          // fingerprints of non-trivial cases
     std::vector<std::string> samples;
 } T;
@@ -386,6 +386,15 @@ void runPattern(uint64_t caseIdx, rt::Rng rng) {
         for (int i = 0; i < len; ++i) word.push_back(rng.below(100) < (uint64_t) wp ? W : R);
     }
     bool rendezvous = rng.chance((unsigned) rt::optInt("rdv", 300));
+    // late arrivals: one request of the first wave (the pivot) keeps the lock until a second wave has
+    // arrived, so that requests also arrive while queued requests of the first wave are being served
+    size_t pivot = 0;
+    std::vector<uint8_t> word2;
+    if (!rendezvous && rng.chance((unsigned) rt::optInt("late", 450))) {
+        pivot = 1 + rng.below(word.size());
+        int len2 = (int) rng.range(1, 4);
+        for (int i = 0; i < len2; ++i) word2.push_back(rng.chance(450) ? W : R);
+    }
     int cpus = (int) (rng.below(3) == 0 ? 1 : 0);
     spy::Delays d;
     int profile = (int) rng.below(3);
@@ -397,7 +406,8 @@ void runPattern(uint64_t caseIdx, rt::Rng rng) {
 
     std::string ws;
     for (auto c : word) ws += c == W ? 'W' : 'R';
-    char desc[200];
+    if (pivot) { ws += " then, while #" + std::to_string(pivot) + " holds, "; for (auto c : word2) ws += c == W ? 'W' : 'R'; }
+    char desc[260];
     snprintf(desc, sizeof desc, "pattern holder=%c arrivals=%s rendezvous=%d cpus=%d delayProfile=%d", holder == W ? 'W' : 'R',
              ws.c_str(), (int) rendezvous, cpus, profile);
     gCaseDesc = desc;
@@ -437,26 +447,32 @@ void runPattern(uint64_t caseIdx, rt::Rng rng) {
     std::vector<Barrier> barriers(batchSize.size());
     for (size_t b = 0; b < batchSize.size(); ++b) barriers[b].need = batchSize[b];
 
-    Hist h(n + 1);
+    size_t total = n + word2.size();
+    Hist h(total + 1);
     for (auto &v : h) v.resize(1);
-    std::vector<std::atomic<int>> state(n + 1);   // 0 not started, 1 calling lock, 2 inside, 3 done
+    std::vector<std::atomic<int>> state(total + 1);   // 0 not started, 1 calling lock, 2 inside, 3 done
     for (auto &s : state) s.store(0);
-    std::vector<std::atomic<int>> spyIndex(n + 1);
+    std::vector<std::atomic<int>> spyIndex(total + 1);
     for (auto &s : spyIndex) s.store(-1);
     std::vector<std::thread> th;
-    std::atomic<int> release{0};
+    std::atomic<int> release{0}, release2{0};
+    std::mutex stM;
+    std::condition_variable stCv;
 
     auto body = [&](size_t i, uint64_t seed) {
         rt::Rng r(seed);
         spy::ThreadRec *me = spy::self();
         me->role.store((int) i);
         spyIndex[i].store(me->index, std::memory_order_release);
-        uint8_t type = i == 0 ? holder : word[i - 1];
+        uint8_t type = i == 0 ? holder : i <= n ? word[i - 1] : word2[i - n - 1];
         state[i].store(1, std::memory_order_release);
         section(type, (uint8_t) r.below(2), h[i][0], gPhase, [&] {
             state[i].store(2, std::memory_order_release);
+            if (i == pivot && pivot) { std::lock_guard l{stM}; stCv.notify_all(); }
             if (i == 0) {
                 while (!release.load(std::memory_order_acquire)) dwell(r, 30);
+            } else if (i == pivot && pivot) {
+                while (!release2.load(std::memory_order_acquire)) dwell(r, 30);
             } else {
                 if (rendezvous && type == R && barriers[batchOf[i]].need >= 2) {
                     barriers[batchOf[i]].arrive();
@@ -468,11 +484,9 @@ void runPattern(uint64_t caseIdx, rt::Rng rng) {
         state[i].store(3, std::memory_order_release);
     };
 
-    th.emplace_back(body, 0, rng.next());
-    while (state[0].load(std::memory_order_acquire) < 2) sched_yield();
-    for (size_t i = 1; i <= n; ++i) {
+    // starts request i and waits until it is observed parked inside lock*() on this Resource, or has been granted
+    auto arrive = [&](size_t i) {
         th.emplace_back(body, i, rng.next());
-        // wait until request i is observed parked inside lock*() on this Resource, or has been granted
         for (;;) {
             int s = state[i].load(std::memory_order_acquire);
             if (s >= 2) break;
@@ -483,8 +497,21 @@ void runPattern(uint64_t caseIdx, rt::Rng rng) {
             }
             sched_yield();
         }
-    }
+    };
+    th.emplace_back(body, 0, rng.next());
+    while (state[0].load(std::memory_order_acquire) < 2) sched_yield();
+    for (size_t i = 1; i <= n; ++i) arrive(i);
     release.store(1, std::memory_order_release);
+    if (pivot) {
+        {   // blocked in a condvar, so that a pivot that is never granted ends in the quiescence verdict
+            std::unique_lock l{stM};
+            stCv.wait(l, [&] { return state[pivot].load(std::memory_order_acquire) >= 2; });
+        }
+        for (size_t i = n + 1; i <= total; ++i) arrive(i);
+        ++T.lateArrivalPatterns;
+        T.lateArrivals += word2.size();
+        release2.store(1, std::memory_order_release);
+    }
     for (auto &x : th) x.join();
     spy::disableDelays();
 
@@ -510,11 +537,13 @@ void runPattern(uint64_t caseIdx, rt::Rng rng) {
 
     // grant order fingerprint
     std::vector<std::pair<uint64_t, size_t>> order;
-    for (size_t i = 0; i <= n; ++i) order.push_back({h[i][0].ret, i});
+    for (size_t i = 0; i <= total; ++i) order.push_back({h[i][0].ret, i});
     std::sort(order.begin(), order.end());
     rt::Hash hs;
     hs.add(holder);
     for (auto c : word) hs.add(c);
+    hs.add(pivot);
+    for (auto c : word2) hs.add(c);
     for (auto &o : order) hs.add(o.second);
     hs.add(hits ? 1 : 0);
     if (n >= 2) T.fps.push_back(hs.get());
@@ -565,6 +594,7 @@ int main(int argc, char **argv) {
                    .kv("readersNoWriter", T.readersNoWriter).kv("readerParksJudged", T.readerParksJudged)
                    .kv("rendezvous", T.rendezvous).kv("rendezvousReaders", T.rendezvousReaders)
                    .kv("predictedParks", T.predictedParks).kv("predictedFast", T.predictedFast)
+                   .kv("lateArrivalPatterns", T.lateArrivalPatterns).kv("lateArrivals", T.lateArrivals)
                    .kv("nontrivial", (uint64_t) T.fps.size())
                    .kv("delaysAfterWake", k.afterWake.load()).kv("delaysCondEntry", k.condEntry.load())
                    .kv("delaysOther", k.beforeLock.load() + k.afterUnlock.load() + k.beforeNotify.load() + k.threadStart.load())
